@@ -40,8 +40,10 @@ def gen_scenario(rng, focus=None, big=False) -> Scenario:
     ra = rng.choice([0, 0, 1, 1, 2]) if focus != "gen" else rng.choice([1, 1, 2])
     timeout = -1 if rng.random() < (0.8 if focus != "timeout" else 0.2) else rng.choice([0, 1, 2, 3, 5])
     managed = rng.random() < 0.3
-    abort_drops = rng.random() < 0.7
     ncalls = rng.choice([1, 1, 2, 2, 3])
+    # a backend that does not cancel in-flight batches at abort leaves them parked: they then complete inside
+    # abort_everything, between calls, or during the next call (all hook points of the schedule)
+    abort_drops = rng.random() < (0.7 if ncalls == 1 else 0.5)
     bmax = max(bs)
     bounds = [0, 1, 2, max(pd - 1, 0), pd, pd + 1, bmax * nj - 1, bmax * nj, bmax * nj + 1, 10 * nj, 10 * nj + 1,
               2 * pd + 1, pd + bmax * nj, pd + bmax * nj + 1]
@@ -58,7 +60,7 @@ def gen_scenario(rng, focus=None, big=False) -> Scenario:
             k = rng.choice([0, 0, 1, 2, 4, 6])
             ops = []
             for _ in range(k):
-                ops.append(rng.choice([1, 1, 1, 1, 5, 5, 4, 2, 3]))
+                ops.append(rng.choice([1, 1, 1, 1, 5, 5, 4, 2, 3] + ([6, 6, 4] if managed else [])))
                 if ops[-1] in (2, 3):
                     break
             cons = tuple(ops)
@@ -79,25 +81,12 @@ def gen_scenario(rng, focus=None, big=False) -> Scenario:
 
 
 def oracle_only_variant(rng, sc: Scenario) -> Scenario:
-    """Adds features that the Lean model does not have (judged by the oracles only)."""
+    """Adds features that the Lean model does not have (judged by the oracles only). Completions between calls, inside
+    abort_everything and leaving the with-block (op 6) are ordinary, model-compared scenario features."""
     import dataclasses
     kw = {}
-    kinds = rng.sample(["between", "abort", "exit", "midpull", "probe"], rng.choice([1, 1, 2]))
+    kinds = rng.sample(["midpull", "probe"], rng.choice([1, 1, 2]))
     calls = list(sc.calls)
-    if "between" in kinds and len(calls) > 1:
-        kw["between"] = tuple(tuple(rng.randrange(3) for _ in range(rng.choice([0, 1, 1, 2]))) for _ in range(len(calls) + 1))
-        kw["abort_drops"] = False
-    if "abort" in kinds:
-        kw["abort_deliver"] = tuple(rng.randrange(3) for _ in range(rng.choice([1, 1, 2])))
-    if "exit" in kinds and sc.ra != 0:
-        k = rng.randrange(len(calls))
-        c = calls[k]
-        cons = list(c.cons) or [1]
-        cons.insert(rng.randrange(len(cons) + 1), 6)
-        if rng.random() < 0.7:
-            cons.append(4)
-        calls[k] = dataclasses.replace(c, cons=tuple(cons))
-        kw["managed"] = True
     if "midpull" in kinds and sc.ra != 0:
         k = rng.randrange(len(calls))
         c = calls[k]
@@ -469,7 +458,8 @@ def explore(ctx, props, n, salt, focus=None, scenarios=None, driver_prop=None):
         for p, sig, detail in oracle(sc, r, props) + prompt:
             res.fail(sig, case, dict(detail=detail, log=line[:1500]))
     res.assumptions = [
-        "completion callbacks run to completion at hook points (caller between two of: configure, compute_batch_size, sleep, consumer pause)",
+        "completion callbacks run to completion at hook points (caller between two of: configure, compute_batch_size, sleep, consumer pause, "
+        "abort_everything, between calls / after the last call)",
         "backend contract: each submitted batch is executed at most once and its callback invoked at most once",
     ]
     return res
